@@ -537,6 +537,25 @@ def suite_C11():
                     exp = 'ERR'
                 cases.append(('z%d' % k, '(%s)[%s]' % (e, lit(i)), exp, dict(stream_of=py, dropped=d, index=i)))
                 k += 1
+    # lazy adaptors: length, elements, indexing and slicing agree whatever was observed first
+    lazies = [('lazy_filter(1 to 10, \\x -> x %% 3 == 0)', [3, 6, 9]), ('lazy_filter(1 to 6, \\x -> 0)', []), ('lazy_map(1 to 4, \\x -> x * x)', [1, 4, 9, 16]),
+              ('lazy_map(stream([5, 6, 7]), (+1))', [6, 7, 8]), ('lazy_filter(lazy_map(1 to 6, (*2)), (>5))', [6, 8, 10, 12]), ('(1 til 10 by 4)', [1, 5, 9])]
+    for e, ref in lazies:
+        for d in range(0, len(ref) + 2):
+            for first in ['len(s)', 'list(s)', 's[0:]', 'null']:
+                prog = '(\\ -> (s := %s; %s; t := s[%d:]; [len(t), list(t), len(s), list(s)]))()' % (e, 'try %s catch zz -> null' % first, d)
+                cases.append(('lz%d' % k, prog, '[%d, %s, %d, %s]' % (len(ref[d:]), nlit(ref[d:]), len(ref), nlit(ref)),
+                              dict(stream=e, dropped=d, observed_first=first, what='lazy adaptor: observations do not interfere')))
+                k += 1
+        for i in range(-len(ref) - 1, len(ref) + 1):
+            try:
+                exp = str(ref[i])
+            except IndexError:
+                exp = 'ERR'
+            cases.append(('li%d' % k, '(\\ -> (s := %s; n := len(s); s[%s]))()' % (e, lit(i)), exp, dict(stream=e, index=i, what='lazy adaptor: index after len')))
+            k += 1
+        cases.append(('lr%d' % k, 'list(reverse(%s))' % e, nlit(ref[::-1]), dict(stream=e, what='lazy adaptor: reverse')))
+        k += 1
     # repeat(x): an infinite constant list; bounds counted from either end
     for lo in [None, 0, 2, 5, -1, -3]:
         for hi in [None, 0, 3, 6, -1, -2]:
@@ -624,6 +643,39 @@ def suite_C12():
                       ('a, b := {1: 2, 3: 4}; sort([a, b])', '[1, 3]'), ('a, b := V(1, 2); a + b', '3')]:
         cases.append(('pf%d' % k, '(\\ -> (%s))()' % prog, exp, dict(program=prog, what='pattern form')))
         k += 1
+    # lambda parameter lists: one optional splat (bare or annotated), trailing defaults, every argument count.
+    # Reference: values fill the non-splat parameters from the left; a parameter with a default uses it iff there are not more
+    # values than non-splat parameters before it; the splat takes what is left in the middle; too few / too many values raise.
+    def bind(params, n):
+        vals = list(range(1, n + 1))
+        nonsplat_before = 0
+        for kind_, _nm, dflt in params:
+            if kind_ == 'splat':
+                continue
+            if dflt is not None and n <= nonsplat_before:
+                vals.append(dflt)
+            nonsplat_before += 1
+        fixed = [q for q in params if q[0] != 'splat']
+        has_splat = len(fixed) != len(params)
+        if (not has_splat and len(vals) != len(fixed)) or (has_splat and len(vals) < len(fixed)):
+            return None
+        si = next((i for i, q in enumerate(params) if q[0] == 'splat'), None)
+        if si is None:
+            return vals
+        right = len(params) - si - 1
+        return vals[:si] + [vals[si:len(vals) - right]] + vals[len(vals) - right:]
+    shapes = [[('p', 'a', None), ('splat', 'r', None), ('p', 'z', 9)], [('p', 'a', None), ('splat', 'r', None), ('p', 'y', 8), ('p', 'z', 9)],
+              [('splat', 'r', None), ('p', 'a', None), ('p', 'z', 9)], [('p', 'a', None), ('p', 'y', 8), ('p', 'z', 9)],
+              [('p', 'a', None), ('p', 'b', None), ('splat', 'r', None)], [('p', 'a', None), ('splat', 'r', None), ('p', 'b', None)], [('p', 'a', None), ('p', 'z', 9)]]
+    for params in shapes:
+        for anno in ([False, True] if any(q[0] == 'splat' for q in params) else [False]):
+            ptxt = ', '.join(('...%s%s' % (nm, ': list' if anno else '')) if kd == 'splat' else (nm if df is None else '(%s = %d)' % (nm, df)) for kd, nm, df in params)
+            names = '[%s]' % ', '.join(nm for _kd, nm, _df in params)
+            for n in range(0, 5):
+                want = bind(params, n)
+                cases.append(('lb%d' % k, '(\\%s -> %s)(%s)' % (ptxt, names, ', '.join(map(str, range(1, n + 1)))), 'ERR' if want is None else nlit(want),
+                              dict(parameters=ptxt, n_arguments=n, what='parameter list with splat / defaults')))
+                k += 1
     # struct construction: arguments first, then the defaults of the remaining fields; a missing field without default raises
     for expr, exp in [('q(VerifBar(1))', '7'), ('p(VerifBar(1))', '1'), ('q(VerifBar(1, 2))', '2'), ('VerifBar()', 'ERR'), ('VerifFoo(1)', 'ERR'), ('b(VerifFoo(1, 2))', '2'),
                       ('VerifBar(1) is VerifBar', '1'), ('VerifBar(1) is VerifFoo', '0'), ('(\\ -> (VerifBar(x, y) := VerifBar(3); [x, y]))()', '[3, 7]'),
@@ -1160,6 +1212,38 @@ def suite_C03():
         k += 1
         cases.append(('g%d' % k, '%d + %d < %d * %d' % (a, b, c, a), str(int(a + b < c * a)), dict(what='mixed')))
         k += 1
+    # the builtin operators at their default precedences, written directly, inside a frozen function, and as a frozen section:
+    # every spelling must group the same way (^ right-associative and tightest, then * // %%, then + -)
+    bprec = {'+': (1, 'L'), '-': (1, 'L'), '*': (2, 'L'), '//': (2, 'L'), '%%': (2, 'L'), '^': (3, 'R')}
+    def bpow(a, b):
+        if b < 0 or b > 300 or abs(a) > 10**30:
+            raise OverflowError('outside the grid')
+        return a ** b
+    bfun = {'+': lambda a, b: a + b, '-': lambda a, b: a - b, '*': lambda a, b: a * b, '//': lambda a, b: a // b, '%%': lambda a, b: a % b, '^': bpow}
+
+    def btighter(pl, pr):
+        return pl[0] > pr[0] or (pl[0] == pr[0] and pl[1] == 'L')
+    consts = [2, 3, 2, 5]
+    for n in (2, 3):
+        for chain_ops in itertools.product(['+', '-', '*', '//', '%%', '^'], repeat=n):
+            toks = [(o, bprec[o], consts[i + 1]) for i, o in enumerate(chain_ops)]
+            try:
+                exp = _climb_reference(consts[0], toks, btighter, lambda f, g: None, lambda op, args: bfun[op](args[0], args[1]))
+            except (ZeroDivisionError, OverflowError, ValueError):
+                continue
+            if not isinstance(exp, int) or abs(exp) > 10**60:
+                continue
+            chain = str(consts[0]) + ''.join(' %s %d' % (o, consts[i + 1]) for i, o in enumerate(chain_ops))
+            meta = dict(chain=chain, what='builtin operators at default precedences')
+            cases.append(('bd%d' % k, chain, str(exp), dict(meta, spelling='direct')))
+            k += 1
+            cases.append(('bf%d' % k, '(freeze \\ -> %s)()' % chain, str(exp), dict(meta, spelling='frozen function')))
+            k += 1
+            slot = str(consts[0]) + ''.join(' %s %s' % (o, '_' if i == n - 1 else str(consts[i + 1])) for i, o in enumerate(chain_ops))
+            cases.append(('bs%d' % k, '(freeze (%s))(%d)' % (slot, consts[n]), str(exp), dict(meta, spelling='frozen section, last operand is the slot')))
+            k += 1
+            cases.append(('bp%d' % k, '(%s)(%d)' % (slot, consts[n]), str(exp), dict(meta, spelling='section, last operand is the slot')))
+            k += 1
     return setup, cases
 
 
